@@ -93,7 +93,8 @@ def cases(draw):
     elif prim == "origins.step_queue":
         A.update(w=draw(fl(0, 500)), d=draw(fl(0, 8000)), q=draw(fl(0, 9000)))
     elif prim == "origins.get_mainstream_flow":
-        A.update(d=draw(fl(0, 8000)), w=draw(fl(0, 500)), v_ctrl=draw(fl(0, 200, (math.inf, v_free))), v_first=draw(fl(0, 1.5 * v_free, (v_free,))))
+        vc = [float(np.asarray(NP.links.Veq(rho_crit, v_free, rho_crit, a))), float(CS.links.Veq(cs.DM(rho_crit), v_free, rho_crit, a))]
+        A.update(d=draw(fl(0, 8000)), w=draw(fl(0, 500)), v_ctrl=draw(fl(0, 200, (math.inf, v_free) + tuple(vc))), v_first=draw(fl(0, 1.5 * v_free, (v_free,) + tuple(vc))))
     elif prim.startswith("origins.get_ramp_flow"):
         A.update(d=draw(fl(0, 8000)), w=draw(fl(0, 500)), C=draw(pos(200, 5000)), r=draw(fl(0, 1, (1,))), rho_first=draw(fl(0, rho_max, (rho_crit, rho_max))))
     elif prim.startswith("origins.get_simplifiedramp_flow"):
